@@ -197,8 +197,9 @@ def run(chk):
     all_abs += abs_rows(big, res, "generic")
     chk.cov["evaluations"] += len(big)
     # `form` varies how a dependency is expressed (GDS: SREF / AREF / both and repeated; raw, tetris: leaves with an
-    # abstract view only / repeated instances): what counts as "a depends on b" must not depend on the form
-    FORMS = {"gds": (0, 1, 2), "tetris": (0, 1, 2, 3), "raw": (0, 1, 2), "tproto": (0, 1, 2), "rawproto": (0, 1, 2)}
+    # abstract view only / repeated instances / a library that was already ordered once before its instances were added):
+    # what counts as "a depends on b" must not depend on the form, and the answer is about the library as it is at the call
+    FORMS = {"gds": (0, 1, 2), "tetris": (0, 1, 2, 3, 4), "raw": (0, 1, 2, 3), "tproto": (0, 1, 2, 4), "rawproto": (0, 1, 2, 3)}
     for which, form in [(w, f) for w in EMBEDDED for f in FORMS.get(w, (0,))]:
         cases = []
         label = which if form == 0 else f"{which}+form{form}"
